@@ -99,6 +99,7 @@ UNITS = {
     ],
     "C20": [
         {"name": "C20_FN", "test": "TestC20_FN", "quick": 320, "thorough": 6000, "shards": 16, "shrink": "90s", "budget_quick": 900},
+        {"name": "C20_CONC", "test": "TestC20_CONC", "quick": 24, "thorough": 600, "shards": 4},
     ],
 }
 
